@@ -22,10 +22,11 @@ const MaxResumes = 12
 
 // byteStore keeps only bytes (copies on the way in and out) and counts the calls.
 type byteStore struct {
-	mu   sync.Mutex
-	m    map[string][]byte
-	sets int
-	gets int
+	mu     sync.Mutex
+	m      map[string][]byte
+	sets   int
+	gets   int
+	setIDs []string // the id of every Set call, in order
 }
 
 func newStore() *byteStore { return &byteStore{m: map[string][]byte{}} }
@@ -45,8 +46,15 @@ func (s *byteStore) Set(ctx context.Context, id string, b []byte) error {
 	s.mu.Lock()
 	defer s.mu.Unlock()
 	s.sets++
+	s.setIDs = append(s.setIDs, id)
 	s.m[id] = append([]byte(nil), b...)
 	return nil
+}
+
+func (s *byteStore) setsSince(n int) []string {
+	s.mu.Lock()
+	defer s.mu.Unlock()
+	return append([]string(nil), s.setIDs[n:]...)
 }
 
 func (s *byteStore) snapshot() (sets int, ids []string) {
@@ -167,6 +175,11 @@ type SegObs struct {
 	NodeErr bool     `json:"node_err,omitempty"` // the error was raised by a node (path attached), not by the top-level loop
 	Out     *Val     `json:"out,omitempty"`
 	Info    *InfoObs `json:"info,omitempty"`
+	ID      string   `json:"id,omitempty"`      // the checkpoint id given (if any)
+	SetIDs  []string `json:"set_ids,omitempty"` // the ids the call wrote under
+	// WrapLost: the information could be extracted from the returned error but not from the same error
+	// wrapped once more by the caller (fmt.Errorf("...: %w", err)), or not the same information
+	WrapLost bool `json:"wrap_lost,omitempty"`
 	Sets    int      `json:"sets"`   // store.Set calls made by this call
 	Stored  bool     `json:"stored"` // a checkpoint exists under the id after the call
 	Execs   []*Exec  `json:"execs"`
@@ -180,6 +193,8 @@ type RunObs struct {
 	Ref        *SegObs    `json:"ref,omitempty"`
 	Segs       []*SegObs  `json:"segs,omitempty"`
 	Finished   bool       `json:"finished"`
+	Segs2      []*SegObs  `json:"segs2,omitempty"` // Case.Twice: the second run on the same compiled runnable
+	Finished2  bool       `json:"finished2,omitempty"`
 	RefScheds  []SchedObs `json:"ref_scheds,omitempty"`
 	Scheds     []SchedObs `json:"scheds,omitempty"`
 }
@@ -299,8 +314,11 @@ func recoverStack(f func()) (p any) {
 }
 
 // call performs one Invoke / Stream on r and classifies the outcome.
-func call(r compose.Runnable[map[string]any, map[string]any], rec *recorder, st *byteStore, cs CallSpec, withID bool, input map[string]any) *SegObs {
+func call(r compose.Runnable[map[string]any, map[string]any], rec *recorder, st *byteStore, cs CallSpec, withID bool, id string, input map[string]any) *SegObs {
 	seg := &SegObs{Call: cs, WithID: withID}
+	if withID {
+		seg.ID = id
+	}
 	rec.mu.Lock()
 	seg0 := rec.seg
 	e0, v0, m0 := len(rec.execs), len(rec.events), len(rec.mods)
@@ -311,7 +329,7 @@ func call(r compose.Runnable[map[string]any, map[string]any], rec *recorder, st 
 	}
 	var opts []compose.Option
 	if withID {
-		opts = append(opts, compose.WithCheckPointID(cpID))
+		opts = append(opts, compose.WithCheckPointID(id))
 	}
 	if cs.Mod {
 		opts = append(opts, compose.WithStateModifier(func(ctx context.Context, path compose.NodePath, state any) error {
@@ -384,6 +402,10 @@ func call(r compose.Runnable[map[string]any, map[string]any], rec *recorder, st 
 			if info, ok := compose.ExtractInterruptInfo(rr.err); ok {
 				seg.Class = "interrupt"
 				seg.Info = canonInfo(info)
+				// a caller that adds its own context to the error still gets at the information
+				if info2, ok2 := compose.ExtractInterruptInfo(fmt.Errorf("session 42: %w", rr.err)); !ok2 || info2 != info {
+					seg.WrapLost = true
+				}
 				scribble(info)
 			} else if errors.Is(rr.err, compose.ErrExceedMaxSteps) || strings.Contains(rr.err.Error(), compose.ErrExceedMaxSteps.Error()) {
 				seg.Class = "steplimit"
@@ -408,6 +430,7 @@ func call(r compose.Runnable[map[string]any, map[string]any], rec *recorder, st 
 	if st != nil {
 		sets1, ids := st.snapshot()
 		seg.Sets = sets1 - sets0
+		seg.SetIDs = st.setsSince(sets0)
 		seg.Stored = len(ids) > 0
 	}
 	return seg
@@ -440,7 +463,7 @@ func Execute(c *Case) *RunObs {
 		compose.VerifC03Begin(0, true)
 		defer compose.VerifC03End()
 	}
-	obs.Ref = call(rr, refRec, nil, CallSpec{}, false, c.input())
+	obs.Ref = call(rr, refRec, nil, CallSpec{}, false, "", c.input())
 	if eager {
 		if obs.Ref.Class != "done" {
 			time.Sleep(3 * time.Millisecond) // abandoned tasks of a failed eager run finish before the next trace starts
@@ -462,29 +485,45 @@ func Execute(c *Case) *RunObs {
 		return obs
 	}
 	obs.ListNote = ib.listNote()
-	for k := 0; k <= MaxResumes; k++ {
-		cs := c.Calls[k%len(c.Calls)]
-		var in map[string]any
-		if k == 0 {
-			in = c.input()
-		} else {
-			in = map[string]any{"resume": strconv.Itoa(k)} // must be ignored by a resumed run
+	driveRun := func(id string) (segs []*SegObs, finished bool) {
+		for k := 0; k <= MaxResumes; k++ {
+			cs := c.Calls[k%len(c.Calls)]
+			var in map[string]any
+			if k == 0 {
+				in = c.input()
+			} else {
+				in = map[string]any{"resume": strconv.Itoa(k)} // must be ignored by a resumed run
+			}
+			seg := call(ir, rec, st, cs, !c.NoID, id, in)
+			segs = append(segs, seg)
+			if seg.Class != "interrupt" {
+				finished = true
+				break
+			}
+			if c.NoID {
+				break // nothing was stored: the run cannot be resumed
+			}
 		}
-		seg := call(ir, rec, st, cs, !c.NoID, in)
-		obs.Segs = append(obs.Segs, seg)
-		if seg.Class != "interrupt" {
-			obs.Finished = true
-			break
+		if eager {
+			if last := segs[len(segs)-1]; last.Class != "done" && last.Class != "interrupt" {
+				time.Sleep(3 * time.Millisecond)
+			}
 		}
-		if c.NoID {
-			break // nothing was stored: the run cannot be resumed
-		}
+		return
 	}
+	obs.Segs, obs.Finished = driveRun(cpID)
 	if eager {
-		if last := obs.Segs[len(obs.Segs)-1]; last.Class != "done" && last.Class != "interrupt" {
-			time.Sleep(3 * time.Millisecond)
-		}
 		obs.Scheds = collectScheds(c)
+	}
+	if c.Twice {
+		// the same compiled runnable, another session: the rerun tables count from 1 again
+		if eager {
+			compose.VerifC03Begin(0, true)
+		}
+		rec.mu.Lock()
+		rec.attempts = map[int]int{}
+		rec.mu.Unlock()
+		obs.Segs2, obs.Finished2 = driveRun(cpID + "-second")
 	}
 	return obs
 }
